@@ -10,7 +10,8 @@
 (GEN) the same run prints every case with the exact expected results.
 (C)  replay: harness/c15_replay.c runs ROC, PrecisionRecall, curve_area, R2/MSE/RMSE/MAE/BIAS and the three table builders of
      the real library on every printed case (four increasing score maps / three dyadic scales), comparing point by point with
-     the rationals (1e-12).
+     the rationals (1e-12); every regression case is evaluated again with truths and predictions moved by a common offset of
+     2^20 .. 2^30 units (|mean|/spread up to 1e9, exactly representable) against the SAME exact value (1e-8).
      validate: the same driver runs the library on long random inputs (n <= 200, arbitrary tie-free score distributions,
      increasing maps, permutations, negation, up to 20 % missing truths) and logs rank order + results as integers over the
      known denominators; TLC recomputes every curve / area / sum exactly and relates the events (TraceStats.tla).
@@ -141,8 +142,10 @@ def _replay_cases(ctx, emits, rd, fams):
                 ctx.case(("Reg", tuple(rec["yt"]), tuple(rec["yp"])), rec["q"][2][1] > 0)
             else:
                 ctx.case((fam, rec["n"], rec["ny"], rec["nlv"]), rec["ny"] > 1 and rec["nlv"] > 1 or fam == "Mlr")
-            if not e["ok"]:
-                ctx.violation("STATS:%s" % e["fn"], "%s on %s: %s: got %s, the definition gives %s" % (e["fn"], _inputs(rec), e["what"], e["got"], e["want"]),
+            for fl in e.get("fails", []):
+                # ":offset" = correct on the unshifted data at all three scales, wrong only when truths and predictions share a large offset
+                ctx.violation("STATS:%s%s" % (fl["fn"], ":offset" if fl.get("shifted") else ""),
+                              "%s on %s: %s: got %s, the definition gives %s" % (fl["fn"], _inputs(rec), fl["what"], fl["got"], fl["want"]),
                               dict(kind="case", rec=_inputs(rec)))
         if h.rc != 0 or not done:
             crash = [e for e in ev if e["e"] == "Crash"]
@@ -160,8 +163,9 @@ def _validate_events(ctx, events, label, replay_case):
         fn = EVENT_FN.get(ev.get("e"), "trace")
         head = next((b for b in block if b.get("e") in ("Roc", "RegIn")), {})
         inp = next((b for b in reversed(block[:block.index(ev) + 1]) if b.get("e") in ("Roc", "RegIn")), head)
-        brief = {k: inp.get(k) for k in ("e", "kind", "n", "exp", "y", "ord", "yt", "yp") if k in inp}
-        ctx.violation("STATS:%s" % fn, "%s: what the library returned is not what the definition gives for the recorded input (event %s; input %s)"
+        brief = {k: inp.get(k) for k in ("e", "kind", "n", "exp", "off", "y", "ord", "yt", "yp") if k in inp}
+        ctx.violation("STATS:%s%s" % (fn, ":offset" if inp.get("off") else ""),
+                      "%s: what the library returned is not what the definition gives for the recorded input (event %s; input %s)"
                       % (fn, str({k: v for k, v in ev.items() if k not in ("y", "ord", "pts", "pr")})[:300], str(brief)[:700]), replay_case(block))
     return trace.check_trace(ctx, "TraceStats", "Trace_Stats.cfg", None, events, on_reject, drop="block", label=label, timeout=2400, max_rounds=8)
 
@@ -196,7 +200,7 @@ def _trace_direction(ctx, rd, nproc, blocks, maxn):
                 nroc += 1
                 ctx.case(("T", e["kind"], tuple(e["y"]), tuple(e["ord"])), True)
             elif e["e"] == "RegIn":
-                ctx.case(("TR", tuple(e["yt"]), tuple(e["yp"]), e["exp"]), True)
+                ctx.case(("TR", tuple(e["yt"]), tuple(e["yp"]), e["exp"], e.get("off", 0)), True)
         ctx.traces(sum(1 for e in ev if e["e"] == "Reset"))
     if nroc == 0:
         raise InfraError("no Roc events recorded")
@@ -240,7 +244,7 @@ def run(ctx):
     ctx.assumptions += [
         "TLC's integer/rational arithmetic and the Stats.tla definitions are the reference (AUC by trapezoids over 2PN, PR area by trapezoids from (recall 0, precision 1), R2 = 1 - SSE/SST, BIAS = |1 - slope|)",
         "scores are tie-free (the property's quantifier); truths are exactly 0/1 or the missing code; R2/BIAS are judged only when the present truths are not constant",
-        "replay compares doubles with the exact rationals within 1e-12 (relative, floor 1 or the squared scale); the validate direction logs integers over the known denominators plus the residual in 1e-12 units, R2/BIAS at 1e-4",
+        "replay compares doubles with the exact rationals within 1e-12 (relative, floor 1 or the squared scale), and within 1e-8 when truths and predictions share an offset of 2^20..2^30 units (conditioning of a computation on deviations; justified by ThShiftInvariant); the validate direction logs integers over the known denominators plus the residual in 1e-12 units, R2/BIAS at 1e-4",
         "in the validate direction the rank order handed to TLC is computed by the harness from its own scores (qsort), and the monotone maps are checked to preserve it in double precision",
         "ASan/UBSan build: any sanitizer report is a violation",
     ]
@@ -256,7 +260,7 @@ def run(ctx):
     if not any(e["fam"] in ("PlsReg", "PlsDa") and e["ny"] > 1 and e["nlv"] > 1 for e in r.emits):
         raise InfraError("vacuous run: no table case with several responses and latent variables")
     ctx.steps["mc_gen_stats"]["cases_per_family"] = count
-    ctx.note("Stats: %d states, 12 theorems hold; %d cases printed %s (%.1fs)" % (r.distinct, len(r.emits), count, r.wall))
+    ctx.note("Stats: %d states, 14 theorems hold; %d cases printed %s (%.1fs)" % (r.distinct, len(r.emits), count, r.wall))
     rd = tlc.rundir()
     try:
         _replay_cases(ctx, r.emits, rd, FAMS)
